@@ -580,4 +580,51 @@ def unmarshalMetadata (j : Json) : Except Err Metadata := do
   pure { ns := ns, metricName := metric, kind := ty, tagKey := tagKey, prefix_ := pre,
          condition := condition, limit := limit }
 
+/-! ## The plan stages (query/context: RootMetricContext / IntermediateMetricContext /
+MetadataContext `.MakePlan`) and the receiving processors (query/leaf_processor.go,
+query/intermediate_processor.go) -/
+
+/-- (plan stage, the expression whose value becomes `TaskRequest.Payload`): in every stage it is
+`MarshalJSON()` of the very statement the planning node keeps (`ctx.Deps.Statement` /
+`ctx.statement`), computed after `calcTimeRangeAndInterval` rewrote that statement in place.
+Tied to the source by `Generated.C17.planPayloads`. -/
+def planPayloadTable : List (String × String) :=
+  [("RootMetricContext.MakePlan", "ctx.Deps.Statement.MarshalJSON()"),
+   ("IntermediateMetricContext.MakePlan", "ctx.statement.MarshalJSON()"),
+   ("MetadataContext.MakePlan", "ctx.Deps.Statement.MarshalJSON()")]
+
+/-- the calls of the plan stages in source order (nothing between the planner step and
+`MarshalJSON`, nothing touching the payload afterwards) -/
+def planCallTable : List (String × List String) :=
+  [("RootMetricContext.MakePlan", ["Statement.HasGroupBy", "Choose.Choose", "len",
+      "stateMgr.GetDatabaseCfg", "calcTimeRangeAndInterval", "Statement.MarshalJSON",
+      "CurrentNode.Indicator", "physicalPlan.AddReceiver", "physicalPlan.Validate",
+      "encoding.JSONMarshal", "ctx.addRequests"]),
+   ("IntermediateMetricContext.MakePlan", ["stateMgr.Choose", "len", "stateMgr.GetDatabaseCfg",
+      "calcTimeRangeAndInterval", "statement.MarshalJSON", "physicalPlan.AddReceiver",
+      "physicalPlan.Validate", "encoding.JSONMarshal", "ctx.addRequests"]),
+   ("MetadataContext.MakePlan", ["Choose.Choose", "len", "Statement.MarshalJSON",
+      "CurrentNode.Indicator", "physicalPlan.AddReceiver", "physicalPlan.Validate",
+      "encoding.JSONMarshal", "ctx.addRequests"])]
+
+/-- what the receiving processors unmarshal: exactly `req.Payload` -/
+def leafUnmarshalTable : List (String × List String) :=
+  [("leafTaskProcessor.processMetadataSuggest", ["req.Payload"]),
+   ("leafTaskProcessor.processDataSearch", ["req.Payload"]),
+   ("intermediateTaskProcessor.processDataSearch", ["req.Payload"]),
+   ("intermediateTaskProcessor.processMetadataSearch", ["req.Payload"])]
+
+/-- the serialisation step of a data plan stage applied to the statement `q` the planning node
+holds after planning: `payload, _ := statement.MarshalJSON()` — no transformation around it -/
+def payloadOf (q : Query) : Json := marshalQuery q
+
+/-- the same for `MetadataContext.MakePlan` -/
+def metaPayloadOf (m : Metadata) : Json := marshalMetadata m
+
+/-- `stmtQuery.UnmarshalJSON(req.Payload)` in `processDataSearch` (leaf and intermediate) -/
+def leafStatement (payload : Json) : Except Err Query := unmarshalQuery payload
+
+/-- `stmtQuery.UnmarshalJSON(req.Payload)` in `processMetadataSuggest` / `processMetadataSearch` -/
+def leafMetadata (payload : Json) : Except Err Metadata := unmarshalMetadata payload
+
 end LinVerif.Stmt
